@@ -56,6 +56,27 @@ func mkInputs(shape [][]int, n int, rng *rand.Rand, shuffle bool) [][]int {
 	return out
 }
 
+// lateCandidate: an honest member without which the remaining honest members still hold a strong quorum (0 if none)
+func lateCandidate(powers []int64, byz []int) int {
+	var total, honest int64
+	isByz := map[int]bool{}
+	for _, b := range byz {
+		isByz[b] = true
+	}
+	for i, p := range powers {
+		total += p
+		if !isByz[i+1] {
+			honest += p
+		}
+	}
+	for i := len(powers) - 1; i >= 0; i-- {
+		if !isByz[i+1] && powers[i] > 0 && 3*(honest-powers[i]) >= 2*total+2 { // margin: scaled powers round down
+			return i + 1
+		}
+	}
+	return 0
+}
+
 // randomScenario draws one scenario of the given mode.
 func randomScenario(mode string, rng *rand.Rand, k int) scenario {
 	f := families[rng.Intn(len(families))]
@@ -69,6 +90,16 @@ func randomScenario(mode string, rng *rand.Rand, k int) scenario {
 		sc.MaxDelay = time.Duration(rng.Intn(900)) * time.Millisecond
 		sc.Uniform = true
 		sc.Instances = 1 + rng.Intn(2)
+		if k%3 == 2 {
+			// boundary input lengths: the protocol maximum (128 tipsets), one beyond the default proposal length (101), and 100
+			l := []int{100, 101, 128}[rng.Intn(3)]
+			long := make([]int, l)
+			for x := range long {
+				long[x] = x
+			}
+			sc.Inputs = mkInputs([][]int{long}, n, rng, false)
+			sc.Instances = 1
+		}
 	case "gst":
 		sc.Byz = f.byz[rng.Intn(len(f.byz))]
 		sc.Inputs = mkInputs(inputShapes[rng.Intn(len(inputShapes))], n, rng, true)
@@ -80,6 +111,24 @@ func randomScenario(mode string, rng *rand.Rand, k int) scenario {
 		}
 		sc.MaxRound = 60
 		sc.MaxSteps = 10 * envInt("VERIF_MAXSTEPS", 3000)
+		switch k % 5 {
+		case 3:
+			// deep history: very slow network for a long time, so that stabilisation finds everybody several rounds in (back-off, rebroadcast
+			// schedule of late rounds) with nothing in flight but timers
+			sc.GST = time.Duration(250+rng.Intn(300)) * time.Second
+			sc.PreGSTMaxDelay = time.Duration(40+rng.Intn(40)) * time.Second
+			sc.SlowFloor = true
+			sc.Byz, sc.Adversary = []int{}, "" // timers only: keeps the long pre-stabilisation history small
+			sc.Stagger = time.Millisecond
+			sc.Inputs = mkInputs(inputShapes[0], n, rng, false) // common input; the early network splits the views (see world.broadcast)
+			sc.MaxSteps = 15 * envInt("VERIF_MAXSTEPS", 3000)
+		case 4:
+			// late starter: one honest member (the others still hold a strong quorum) starts the instance well after stabilisation, when
+			// everything the others ever sent sits in its future-instance queue
+			if id := lateCandidate(f.powers, sc.Byz); id > 0 {
+				sc.Late = id
+			}
+		}
 	default: // "random"
 		sc.Byz = f.byz[rng.Intn(len(f.byz))]
 		sc.Inputs = mkInputs(inputShapes[rng.Intn(len(inputShapes))], n, rng, rng.Intn(2) == 0)
